@@ -19,6 +19,7 @@ THEOREMS = [
     "BeyondVerif.C05.kepler_periodic_k",
     "BeyondVerif.C05.kepler_equation_solution_unique",
     "BeyondVerif.C05.kepler_equation_equivariant",
+    "BeyondVerif.C05.hyperbolic_kepler_equation_solution_unique",
     "BeyondVerif.C05.kepler_cart_compose",
     "BeyondVerif.C05.kepler_cart_inverse",
     "BeyondVerif.C05.kepler_cart_periodic",
@@ -29,8 +30,8 @@ THEOREMS = [
     "BeyondVerif.C05.j2_angles_wrapped",
     "BeyondVerif.C05.j2_polar_no_node_drift",
     "BeyondVerif.C05.j2_critical_no_perigee_drift",
-    "BeyondVerif.C05.j2_compose_mod",
-    "BeyondVerif.C05.j2_reduces_to_kepler",
+    "BeyondVerif.C05.j2_compose",
+    "BeyondVerif.C05.j2_inverse",
     "BeyondVerif.C05.j2_node_rate_eq_sso",
 ]
 LEVEL_TEXT = ("Lean theorems over R about the element update translated from kepler.py, j2.py and Infos.n on every run: a, e, i, node, perigee constant and "
@@ -414,7 +415,7 @@ def _oracle_kepler(out, rng, N):
         # 1. a, e, i, Ω, ω unchanged, M advanced by n dt
         x1 = mean_of(res)
         cond = 1 / min(e, abs(e - 1), 1.0)
-        tol = 1e-9 * amp
+        tol = 1e-11 * amp
         bad = None
         if abs(x1[0] / x0[0] - 1) > tol * cond: bad = "a"
         elif abs(x1[1] - x0[1]) > tol * max(1, e) * cond: bad = "e"
@@ -430,7 +431,7 @@ def _oracle_kepler(out, rng, N):
         # 2. independent universal-variable solution, forwards and backwards
         ref = universal_kepler(mu, c0[:3], c0[3:], dt)
         out.count(key=("uv", form, tuple(elts), dt), nontrivial=dt != 0, kind=f"universal-variable-{conic}-{'back' if dt < 0 else 'fwd'}")
-        if not rel_err(c1, ref) <= 1e-5:
+        if not rel_err(c1, ref) <= min(1e-5, 1e-9 + 1e-10 * amp):
             out.fail(f"kepler-universal-variable-{conic}", "Kepler.propagate differs from the universal-variable two-body solution by more than 1e-5", inp,
                      observed=c1, expected=ref)
         # 3. composition and inverse
@@ -445,13 +446,13 @@ def _oracle_kepler(out, rng, N):
                 xm = mean_of(mid) if finite(mid) else x0
                 out.fail(nonfinite_family("Kepler", x0, mu, t1) if not finite(mid) else nonfinite_family("Kepler", xm, mu, t2),
                          "Kepler.propagate returns a non-finite state inside the property's domain (composition leg)", dict(inp, t1=t1, t2=t2), observed=two)
-            elif not rel_err(two, c1) <= 1e-8 * amp2 * cond:
+            elif not rel_err(two, c1) <= 3e-9 * amp2 * cond:
                 out.fail(f"kepler-compose-{conic}", "propagate(t1) then propagate(t2) differs from propagate(t1+t2)", dict(inp, t1=t1, t2=t2), observed=two, expected=c1)
         back = [float(v) for v in res.propagate(timedelta(seconds=-dt))]
         out.count(key=("inverse", form, tuple(elts), dt), nontrivial=dt != 0, kind=f"inverse-{conic}")
         if not finite(back):
             out.fail(nonfinite_family("Kepler", x1, mu, -dt), "Kepler.propagate returns a non-finite state inside the property's domain (way back)", inp, observed=back)
-        elif not rel_err(back, c0) <= 1e-8 * amp * cond:
+        elif not rel_err(back, c0) <= 3e-9 * amp * cond:
             out.fail(f"kepler-inverse-{conic}", "propagate(-t) after propagate(t) does not return to the initial state", inp, observed=back, expected=c0)
         # 4. periodicity of bound orbits
         if conic == "ell":
